@@ -222,13 +222,14 @@ type LVal struct {
 	Sl    *Slice // or: element of slice
 	Idx   string
 	Sub   string // field sub-path below element ("" or ".f.g")
+	Abs   string // absolute array index override (quantifier anchors)
 	Typ   types.Type
 	ghost bool
 }
 
 func (l *LVal) field(name string, t types.Type) *LVal {
 	if l.Sl != nil {
-		return &LVal{Sl: l.Sl, Idx: l.Idx, Sub: l.Sub + "." + name, Typ: t}
+		return &LVal{Sl: l.Sl, Idx: l.Idx, Sub: l.Sub + "." + name, Typ: t, Abs: l.Abs}
 	}
 	return &LVal{Path: l.Path + "." + name, Typ: t}
 }
